@@ -109,6 +109,15 @@ def replay(recs):
             exp = {"dist^2": r["d2"]}
             check(f"dist(point,point)/{dim}D", st, case, exp, lambda: g.dist(a, b), lambda v: d2_ok(v, r["d2"]))
             check(f"dist(point,point)/{dim}D/swapped", st, case, exp, lambda: g.dist(b, a), lambda v: d2_ok(v, r["d2"]))
+            if r["a"][-1] > 0 and r["b"][-1] > 0 and (sum(r["a"]) + 2 * sum(r["b"])) % 4 == 0:
+                # the same pair shifted into the positive octant (a translation) and stored in narrow / unsigned types
+                sa = [x + 4 * r["a"][-1] for x in r["a"][:-1]] + [r["a"][-1]]
+                sb = [x + 4 * r["b"][-1] for x in r["b"][:-1]] + [r["b"][-1]]
+                if min(sa) >= 0 and min(sb) >= 0:
+                    for dt in (np.uint8, np.uint16, np.uint64, np.int8, np.int16, np.float32):
+                        pa, pb = g.Point(np.array(sa, dtype=dt)), g.Point(np.array(sb, dtype=dt))
+                        check(f"dist(point,point)/{dim}D/coordinates-stored-as-{np.dtype(dt).name}", st, {"a": sa, "b": sb}, exp,
+                              lambda pa=pa, pb=pb: (g.dist(pa, pb), g.dist(pb, pa)), lambda v: d2_ok(v[0], r["d2"]) and d2_ok(v[1], r["d2"]))
         elif t == "ph":
             dim = len(r["p"]) - 1
             h, p = hyper(r["h"]), P(r["p"])
